@@ -205,7 +205,15 @@ fn real_main() -> i32 {
                     // overlapping compilations (the history pass releases one call at a time)
                     let post = |seed: u64, tier: Tier| -> Result<histcheck::PostPass, String> {
                         let r = c20conc::pass_for("C15", seed, tier)?;
-                        Ok(histcheck::PostPass { exit: r.exit, violations: r.violations, name: "concurrent_pass", evidence: r.evidence })
+                        let (mut evidence, mut exit, mut violations) = (r.evidence, r.exit, r.violations);
+                        if exit == 0 {
+                            // shared state that parse/compile reach without going through std::sync
+                            let m = c20miri::pass_for("C15", tier == Tier::Quick)?;
+                            evidence.insert("miri_pass".into(), serde_json::Value::Object(m.evidence));
+                            exit = m.exit;
+                            violations += m.violations;
+                        }
+                        Ok(histcheck::PostPass { exit, violations, name: "concurrent_pass", evidence })
                     };
                     return histcheck::check(p, tier, Some(&post));
                 }
